@@ -150,6 +150,7 @@ class Connection:
     #                     and changed objects refuse, the rest become ghosts)
     fail_setstate = 0
     sweep_at_setstate = 0
+    sweep_leaves_only = False     # the in-load sweep spares interior nodes
     loads_refused = 0
     incall_sweeps = 0
 
@@ -158,9 +159,16 @@ class Connection:
             self.sweep_at_setstate -= 1
             if self.sweep_at_setstate == 0:
                 self.incall_sweeps += 1
+                o = None
                 for _oid, o in list(self.cache.items()):
-                    if o is not obj:
-                        o._p_deactivate()
+                    if o is obj:
+                        continue
+                    if self.sweep_leaves_only:
+                        n = type(o).__name__.replace('Py', '')
+                        if n.endswith('TreeSet') or not n.endswith(
+                                ('Bucket', 'Set')):
+                            continue
+                    o._p_deactivate()
                 del o
         if self.fail_setstate:
             self.fail_setstate -= 1
